@@ -87,6 +87,19 @@ def gen_cases(rng, tier):
         cfg = '(defsrc a s d)\n(deflayer l0 %s y (one-shot 50 ralt))' % act
         h = rng.choice([['d30', 't3', 'u30'], ['d32', 't1', 'd30', 't20', 'u30', 't5', 'u32'], ['d30', 't1', 'u30', 't30', 'd31', 't5', 'u31']])
         cases.append({'id': 'c01-rptself-%d' % i, 'cfg': cfg, 'hist': h + ['t%d' % DRAIN, 'q', 't50'], 'sub': 'ksim', 'tags': {'mode': 'rpt-any-self-trigger'}})
+    # chords v2 (random typing over overlapping chords, min-idle windows, tap-hold / one-shot base keys) and zippychord:
+    # the generators of C09 / C20, here followed by the long quiet tail and judged by the end-state oracle
+    from checks import c09, c20
+    for i in range(160 if tier == 'quick' else 5000):
+        c = c09.v2_random_case(rng, i)
+        assert c['hist'][-2:] == ['t300', 'q']
+        cases.append({'id': 'c01-v2-%d' % i, 'cfg': c['cfg'], 'hist': c['hist'][:-2] + ['t%d' % DRAIN, 'q', 't50'], 'sub': 'ksim',
+                      'tags': {'mode': 'chords-v2'}})
+    for i in range(40 if tier == 'quick' else 1000):
+        c = c20.make_case(rng, i, tier)
+        assert c['hist'][-1] == 'q'
+        cases.append({'id': 'c01-zippy-%d' % i, 'cfg': c['cfg'], 'files': c['files'], 'hist': c['hist'][:-1] + ['t%d' % DRAIN, 'q', 't50'],
+                      'sub': 'ksim', 'tags': {'mode': 'zippychord'}})
     return cases
 
 
@@ -142,7 +155,7 @@ SPEC = {
     'id': 'C01', 'sub': 'ksim', 'gen_cases': gen_cases, 'nontrivial': trace_has_output, 'oracle': oracle,
     'rule': 'random configs over the whole action grammar (virtual keys only with balanced operations) x consistent histories in which every '
             'pressed key is released, followed by %d quiet ticks; overflow modes: bursts beyond the 32-slot queue, >64 states, >8 tap-holds, '
-            '>16 one-shots, >4 concurrent macros, mouse/scroll custom actions; non-trivial = output produced' % DRAIN,
+            '>16 one-shots, >4 concurrent macros, mouse/scroll custom actions; chords v2 under random typing (min-idle windows), zippychord scenarios; non-trivial = output produced' % DRAIN,
     'explanation': 'the kanata-level model is compared event by event; the oracle replays the real output and requires: nothing down, no '
                    'button down, no scroll/move state, silence in the tail, is_idle() true',
 }
